@@ -18,11 +18,12 @@ const modPath = "github.com/hashicorp/go-plugin"
 
 // Prog is the loaded, type-checked program of the working tree (engine E1).
 type Prog struct {
-	Dir   string
-	Fset  *token.FileSet
-	Pkgs  map[string]*packages.Package // by import path, module packages only
-	All   []*packages.Package
-	Funcs []*Func // every FuncDecl and FuncLit with a body in scope packages
+	fieldNames map[*types.Var]string
+	Dir        string
+	Fset       *token.FileSet
+	Pkgs       map[string]*packages.Package // by import path, module packages only
+	All        []*packages.Package
+	Funcs      []*Func // every FuncDecl and FuncLit with a body in scope packages
 	// lookup tables
 	declOf      map[*types.Func]*Func
 	litOf       map[*ast.FuncLit]*Func
@@ -81,6 +82,14 @@ func Load(dir, goos, goarch string) (*Prog, error) {
 	p, err := loadWith(dir, goos, goarch, nil)
 	if err != nil {
 		return nil, err
+	}
+	if ov, notes := p.normalizeOverlay(); len(ov) > 0 {
+		if p2, err2 := loadWith(dir, goos, goarch, ov); err2 == nil {
+			p2.InlineNotes = notes
+			p = p2
+		} else {
+			p.InlineNotes = append(p.InlineNotes, "loop unrolling was attempted but the rewritten program does not type-check ("+firstLine(err2.Error())+"); analysing the original program")
+		}
 	}
 	for round := 0; round < 3; round++ {
 		ov, notes := p.inlineOverlay()
@@ -451,13 +460,91 @@ func SelField(info *types.Info, e ast.Expr) *types.Var {
 	return nil
 }
 
-// fieldOwner returns "Type.field" for a field var by scanning scope packages.
+// FieldName returns "Type.field" (canonical) for a field of a struct type of
+// the scope packages. A field whose name the reference tree does not have in
+// that struct, while exactly one reference field of the identical type is
+// missing from it, is that field renamed: the reference name is used so that
+// tables keyed by field keep applying (knownfields.go).
 func (p *Prog) FieldName(v *types.Var) string {
 	if v == nil || !v.IsField() {
 		return ""
 	}
+	if p.fieldNames == nil {
+		p.fieldNames = map[*types.Var]string{}
+		for _, sp := range scopePkgs {
+			pk := p.Pkgs[sp]
+			if pk == nil {
+				continue
+			}
+			sc := pk.Types.Scope()
+			pre := ""
+			if sp != modPath {
+				pre = filepath.Base(sp) + "."
+			}
+			for _, n := range sc.Names() {
+				tn, ok := sc.Lookup(n).(*types.TypeName)
+				if !ok {
+					continue
+				}
+				st, ok := tn.Type().Underlying().(*types.Struct)
+				if !ok {
+					continue
+				}
+				owner := pre + p.typeName(tn)
+				ref := knownFields[owner]
+				cur := map[string]bool{}
+				for i := 0; i < st.NumFields(); i++ {
+					cur[st.Field(i).Name()] = true
+				}
+				taken := map[string]bool{}
+				for i := 0; i < st.NumFields(); i++ {
+					f := st.Field(i)
+					name := f.Name()
+					if ref != nil {
+						if _, known := ref[name]; !known {
+							ts := fieldTypeString(f.Type())
+							var cands []string
+							for rn, rt := range ref {
+								if !cur[rn] && !taken[rn] && rt == ts {
+									cands = append(cands, rn)
+								}
+							}
+							if len(cands) == 1 {
+								name = cands[0]
+								taken[name] = true
+							}
+						}
+					}
+					p.fieldNames[f] = owner + "." + name
+				}
+			}
+		}
+	}
+	if n, ok := p.fieldNames[v]; ok {
+		return n
+	}
+	return v.Name()
+}
+
+func fieldTypeString(t types.Type) string {
+	return types.TypeString(t, func(pk *types.Package) string { return pk.Name() })
+}
+
+// genKnownFields prints knownfields.go for the loaded tree.
+func (p *Prog) genKnownFields() string {
+	var b strings.Builder
+	b.WriteString("package main\n\n// knownFields are the struct fields (name -> type) of the reference tree, by\n// canonical owner type. Generated by gpcheck -genknownfields.\nvar knownFields = map[string]map[string]string{\n")
+	var owners []string
+	m := map[string]map[string]string{}
 	for _, sp := range scopePkgs {
 		pk := p.Pkgs[sp]
+		if pk == nil {
+			continue
+		}
+		pre := ""
+		if sp != modPath {
+			pre = filepath.Base(sp) + "."
+		}
 		sc := pk.Types.Scope()
 		for _, n := range sc.Names() {
 			tn, ok := sc.Lookup(n).(*types.TypeName)
@@ -465,21 +552,32 @@ func (p *Prog) FieldName(v *types.Var) string {
 				continue
 			}
 			st, ok := tn.Type().Underlying().(*types.Struct)
-			if !ok {
+			if !ok || st.NumFields() == 0 {
 				continue
 			}
+			owner := pre + tn.Name()
+			owners = append(owners, owner)
+			m[owner] = map[string]string{}
 			for i := 0; i < st.NumFields(); i++ {
-				if st.Field(i) == v {
-					pre := ""
-					if sp != modPath {
-						pre = filepath.Base(sp) + "."
-					}
-					return pre + p.typeName(tn) + "." + v.Name()
-				}
+				m[owner][st.Field(i).Name()] = fieldTypeString(st.Field(i).Type())
 			}
 		}
 	}
-	return v.Name()
+	sort.Strings(owners)
+	for _, o := range owners {
+		fmt.Fprintf(&b, "\t%q: {\n", o)
+		var fs []string
+		for f := range m[o] {
+			fs = append(fs, f)
+		}
+		sort.Strings(fs)
+		for _, f := range fs {
+			fmt.Fprintf(&b, "\t\t%q: %q,\n", f, m[o][f])
+		}
+		b.WriteString("\t},\n")
+	}
+	b.WriteString("}\n")
+	return b.String()
 }
 
 func isErrorType(t types.Type) bool {
